@@ -61,3 +61,50 @@ def tokens_or_empty(pattern):
         return tokens(pattern)
     except ValueError:
         return []
+
+
+_IUPAC = {"A": "A", "C": "C", "G": "G", "T": "T", "R": "AG", "Y": "CT", "S": "CG", "W": "AT", "K": "GT", "M": "AC",
+          "B": "CGT", "D": "AGT", "H": "ACT", "V": "ACG", "N": "ACGT"}
+
+
+def occurrences_any_origin(pattern, seq, limit=220):
+    """For a pattern OUTSIDE the modelled language (look-around assertions and the like): the number of places of the
+    circle at which the pattern - read with Python's own `re`, IUPAC letters expanded here, independently of moclo.regex -
+    matches within one turn in AT LEAST ONE linearisation of the plasmid.  A context-free pattern gives the same count
+    in every linearisation; with a look-around the count is the most permissive reading, which is the one under which an
+    implementation that accepts the plasmid at some origin has seen an occurrence.  -1 = not evaluated (too long / not
+    translatable)."""
+    import re as _re
+    n = len(seq)
+    if not 0 < n <= limit:
+        return -1
+    out, i = [], 0
+    while i < len(pattern):
+        c = pattern[i]
+        if pattern.startswith("(?", i):
+            m = _re.match(r"\(\?(?:<[!=]|[!=:]|P<[A-Za-z_0-9]+>)", pattern[i:])
+            if not m:
+                return -1
+            out.append(m.group(0))
+            i += len(m.group(0))
+            continue
+        if c.upper() in _IUPAC:
+            out.append("[%s]" % _IUPAC[c.upper()])
+        elif c in "()*?+|":
+            out.append(c)
+        else:
+            return -1
+        i += 1
+    try:
+        rx = _re.compile("".join(out), _re.I)
+    except _re.error:
+        return -1
+    s = seq.upper()
+    places = set()
+    for o in range(n):
+        lin = s[o:] + s[:o]
+        dbl = lin + lin
+        for j in range(n):
+            if (o + j) % n not in places and rx.match(dbl, j, j + n):
+                places.add((o + j) % n)
+    return len(places)
